@@ -98,6 +98,7 @@ func (s *scenario) recEDS(ns, name string, faults map[int]string) {
 		return
 	}
 	in := edsInput(w.cl, ns, name, w.mode)
+	in["inScenario"] = true
 	w.wl, w.faults, w.writeCount, w.faultFired = &writeLog{}, faults, 0, false
 	out, nowC := runEdsReconcile(w.edsRec, w.wl, ns, name)
 	crashed := w.dead
